@@ -119,6 +119,19 @@ func (e NotificationEvent) MarshalText() ([]byte, error) {
 	return []byte(e), nil
 }
 
+// UnmarshalJSON rejects null: encoding/json would otherwise skip UnmarshalText and
+// leave an empty, invalid event in place (e.g. in a list of events).
+func (e *NotificationEvent) UnmarshalJSON(b []byte) error {
+	var s *string
+	if err := json.Unmarshal(b, &s); err != nil {
+		return err
+	}
+	if s == nil {
+		return errors.New("notification event cannot be null")
+	}
+	return e.UnmarshalText([]byte(*s))
+}
+
 func (e *NotificationEvent) UnmarshalText(text []byte) error {
 	event := NotificationEvent(text)
 	err := event.Validate()
